@@ -9,6 +9,7 @@ import (
 	"os/exec"
 	"reflect"
 	"regexp"
+	"sync/atomic"
 	"testing"
 
 	"github.com/maruel/panicparse/v2/stack"
@@ -197,9 +198,15 @@ var c06Dump = Check[c06Case]{
 
 // ---- layouts with nested modules / overlapping roots ---------------------------------------
 
+var c06LayoutSeq atomic.Int64
+
 func c06LayoutOracle(c c18Case) error {
 	base, done := scratchDir("c06")
 	defer done()
+	if c.L.GorootRemote != "" && !c.L.Toolchain {
+		// a remote Go root no earlier case of this process has used (c is this call's copy)
+		c.L.GorootRemote += fmt.Sprintf("-%d", c06LayoutSeq.Add(1))
+	}
 	if err := c.L.materialise(base); err != nil {
 		return fmt.Errorf("HARNESS: %v", err)
 	}
@@ -225,9 +232,35 @@ func c06LayoutOracle(c c18Case) error {
 		gps = append(gps, gps[0]+"/src")
 	}
 	opts := &stack.Opts{GuessPaths: true, NameArguments: true, LocalGOROOT: c.L.localGoroot(base), LocalGOPATHs: gps}
+	// An earlier dump must not matter: the frames that do not establish the Go root (everything
+	// but the standard-library files present locally) are scanned on their own before the
+	// whole dump was ever seen, and again afterwards.
+	var sub []int
+	for _, k := range order {
+		if t := truths[k]; !(t.Known && t.Present && t.Loc == stack.Stdlib) {
+			sub = append(sub, k)
+		}
+	}
+	var part []byte
+	var partBefore *renderAll
+	if len(sub) > 0 && len(sub) < len(order) {
+		pd := dumpFor(refs, sub)
+		part = pd.Print()
+		partBefore, _ = runPipeline(part, opts, false)
+	}
 	first, err := runPipeline(x, opts, true)
 	if err != nil {
 		return err
+	}
+	if partBefore != nil {
+		after, err := runPipeline(part, opts, false)
+		if err != nil {
+			return err
+		}
+		if err := sameRun(partBefore, after, 0); err != nil {
+			return fmt.Errorf("a dump scanned before and after another dump of the same machine: %v", err)
+		}
+		statsFor("C06").class("partial_dump_before_and_after_the_whole_dump", 1)
 	}
 	for r := 1; r < reps(); r++ {
 		again, err := runPipeline(x, opts, r%8 == 1)
